@@ -5,6 +5,7 @@ import capture
 
 ID = "C04"
 THEOREMS = ["rewriteCaptured_preserves", "rewriteCaptured_lambda", "rewriteCaptured_sem_both", "rewrite_depends_on_free_names", "bound_names_untouched", "frozen", "nontransportable_refused", "hrun_queries_prefix"]
+LEANCHECKER_MODULES = ["Fadl.Props.C04Sem", "Fadl.Props.C04"]  # re-checked by leanchecker in the thorough tier
 RULE = (
     "generated modules (harness/capture.py) whose lambdas mention closure cells, module globals, nested class "
     "constants, module attributes, enum members, data classes and one-line helpers, with binder names (lambda "
